@@ -2,7 +2,9 @@ import CobyqaVerif.Model.Filter
 /-
 Executable post-condition of C03 in terms of *all evaluated points* `evs` (not the filter):
 what the driver evaluates on the point the **implementation** returned.  `Props/C03.lean`
-proves that the model's answer satisfies it for every history.
+(`model_meets_spec`) proves that the model's answer is an evaluated point and satisfies the feasible-first and NaN
+clauses for every history; the merit clause is proved at filter level (`bestEval_merit_min`,
+`returned_not_dominated`) under the monotonicity hypothesis that `meritRegular` checks per instance.
 -/
 namespace Cobyqa
 open X
